@@ -1,4 +1,6 @@
+pub mod c01;
 pub mod c02;
+pub mod c07;
 
 use crate::report::Report;
 use automerge::TextEncoding;
@@ -32,7 +34,9 @@ pub const ENCODINGS: [TextEncoding; 4] = [
 
 pub fn run(prop: &str, args: &Args) -> i32 {
     match prop {
+        "C01" => c01::run(args),
         "C02" => c02::run(args),
+        "C07" => c07::run(args),
         _ => {
             eprintln!("unknown property {}", prop);
             2
